@@ -270,6 +270,16 @@ func cmdCheck(args []string) int {
 		fc := prog.Contracts[funcKey(fn)]
 		if fc != nil && fc.Trusted {
 			reports = append(reports, &FuncReport{Key: funcKey(fn), Trusted: true})
+			if len(fc.CallAsserts) > 0 && len(fn.Blocks) > 0 {
+				// a trusted contract (its postconditions are assumed, typically because they only name the result) may still
+				// carry call-site assertions about the body: those, and the preconditions of the callees, are checked
+				o, _ := VerifyFunction(prog, fn, fc, false)
+				for _, ob := range o {
+					if ob.Kind == "assert" || ob.Kind == "pre" {
+						obs = append(obs, ob)
+					}
+				}
+			}
 			continue
 		}
 		o, rep := VerifyFunction(prog, fn, fc, false)
